@@ -5,7 +5,7 @@ from __future__ import annotations
 from .. import oracle
 from .. import paths as P
 from .. import terms as T
-from ..model import Program
+from ..model import AnalysisError, Program
 from ..report import Report
 
 EXPLANATION = (
@@ -30,7 +30,7 @@ def run(prog: Program, rep: Report, tier: str):
     rep.rule("R19.1", "re-entrancy guard acquire/release pairing on every normal exit", floor=1)
     rep.rule("R19.2", "slot set = fields (+flags) − inherited; field defaults removed from the class dict", floor=5)
     rep.rule("R19.3", "class rebuilt from metaclass/name/bases/copied dict; __qualname__ propagated", floor=3)
-    rep.rule("R19.4", "frozen pickle hook guard", floor=1)
+    rep.rule("R19.4", "frozen pickle hook guard and setter", floor=2)
     outer = prog.function(f"{MOD}.slotted")
     f, paths = P.closure_paths(prog, outer, "wrap")
     q = f.qualname
@@ -83,8 +83,9 @@ def run(prog: Program, rep: Report, tier: str):
         from_fields = T.contains(src, lambda s: s == fields_call)
         filt = any(cd[0] == "cmp" and cd[1] == "notin" and cd[2] == c[2] and T.contains(cd[3], lambda s: s[0] == "call" and s[1][0] == "attr" and s[1][2] == "union") for cd in c[4])
         inherited_ok = any(cd[0] == "cmp" and cd[1] == "notin" and T.contains(cd[3], lambda s: T.is_call_to(s, "builtins.getattr") and len(s[2]) >= 2 and s[2][1] == ("const", "__slots__")) for cd in c[4])
-        ok_slots = ok_slots and from_fields and filt and inherited_ok
-    rep.check(ok_slots, "R19.2", q, f.loc, "__slots__ are the dataclass field names not already slotted by a base", "__slots__ are not `fields(cls)` names minus the union of inherited __slots__ (duplicate slots raise / fields lose their slot)", detail="slots")
+        all_ancestors = any(T.contains(cd, lambda s: (s[0] == "call" and s[1][0] == "attr" and s[1][1] == CLS and s[1][2] == "mro") or s == ("attr", CLS, "__mro__")) for cd in c[4])
+        ok_slots = ok_slots and from_fields and filt and inherited_ok and all_ancestors
+    rep.check(ok_slots, "R19.2", q, f.loc, "__slots__ are the dataclass field names not already slotted by a base", "__slots__ are not `fields(cls)` names minus the union of the __slots__ of *every* ancestor (cls.mro()): a slot re-declared from a grandparent is duplicated, or type() raises", detail="slots")
     # names come from f.name of dataclasses.fields(cls)
     fn = None
     for e in p.events:
@@ -140,4 +141,11 @@ def run(prog: Program, rep: Report, tier: str):
         frozen = any(T.contains(g, lambda s: s[0] == "attr" and s[2] == "frozen") for g in gs)
         nouser = any(T.contains(g, lambda s: s == ("const", "__getstate__")) and T.contains(g, lambda s: s == ("const", "__setstate__")) and T.contains(g, lambda s: s[0] == "cmp" and s[1] == "notin") for g in gs)
         ok_hook = ok_hook and frozen and nouser
+    try:
+        hf, hps = P.closure_paths(prog, outer, "_slots_setstate")
+        setters = [c for hp in hps for c in hp.calls() if T.refname(c[1]) in ("builtins.object.__setattr__", "builtins.setattr") or (c[1][0] == "attr" and c[1][2] == "__setattr__")]
+        good = bool(setters) and all(T.refname(c[1]) == "builtins.object.__setattr__" and c[2][:1] == (("param", hf.params[0]),) for c in setters)
+        rep.check(good, "R19.4", hf.qualname, hf.loc, "the pickle hook restores slots with object.__setattr__ (frozen classes reject every other setter)", "the pickle hook does not restore slots through object.__setattr__(self, …): for a frozen subclass the inherited frozen __setattr__ raises on copy / pickle", detail="hook-setter")
+    except AnalysisError:
+        rep.undecided("R19.4", q, f.loc, "pickle hook helper not found", detail="hook-setter")
     rep.check(ok_hook, "R19.4", q, f.loc, "the pickle hook is installed only for frozen classes without user __getstate__/__setstate__", "the __setstate__ hook is not guarded by frozen ∧ no user-defined __getstate__/__setstate__", detail="hook")
